@@ -126,6 +126,12 @@ def run(ctx: Ctx) -> None:
     ctx.trusted += ["os.path.isabs/abspath/join/dirname", "str.split('\\n') / '\\n'.join are inverse"]
     ctx.not_decided += ["equality with textual substitution for every cut point of every include tree"]
 
+    # ---- I4 (first part, decided before anything is evaluated: a splitting function the evaluator does not
+    # model must not hide it) ---------------------------------------------------------------------------
+    ctx.rule("I4", "the replacement loop pops and inserts at the same index with nothing else mutating the line list; text is split and joined on the same separator", 2)
+    lines_var, split_sep, join_ok, why, where = split_join_pairing(fn)
+    ctx.check(join_ok, "I4", "split / join separator", loc(where), f"separator {split_sep!r}", why)
+
     # ---- I1 bounded recursion ---------------------------------------------------------------
     ctx.rule("I1", f"depth counter: default 0, incremented by exactly 1 at the only recursive call, and a raise guarded by 'counter == {LIMIT}' precedes the file read and the recursion; no external caller passes the counter", 5)
     depth = None
@@ -207,6 +213,11 @@ def run(ctx: Ctx) -> None:
     S1.files = chain(LIMIT + 1)
     o, opened = S1.run(S1.text("R0", "INCLUDE f1.map", "R1"), "/r/main.map")
     ctx.check(o.kind == "raise" and o.exc == "ValueError" and len(opened) == LIMIT, "I1", f"level {LIMIT + 1} is refused with ValueError before its file is read", loc(fn), "", f"a chain of {LIMIT + 1} nested includes gives {o.exc or 'a result'} after opening {len(opened)} files (expected ValueError after {LIMIT})")
+    # the same bound when the root text has no file name (loads / a nameless stream)
+    chain_cwd = lambda n: {f"ABS(JOIN(DIR(/cwd/),f{k}.map))": (S1.text(f"F{k}a", f"INCLUDE f{k + 1}.map", f"F{k}b") if k < n else S1.text(f"F{k}")) for k in range(1, n + 1)}
+    S1.files = chain_cwd(LIMIT + 1)
+    o, opened = S1.run(S1.text("R0", "INCLUDE f1.map", "R1"), None)
+    ctx.check(o.kind == "raise" and o.exc == "ValueError" and len(opened) == LIMIT, "I1", f"level {LIMIT + 1} is refused also when the root has no file name", loc(fn), "", f"without a root file name a chain of {LIMIT + 1} nested includes gives {o.exc or 'a result'} after opening {len(opened)} files (expected ValueError after {LIMIT}): open() and loads() disagree on the same tree")
     # a file reached at two different depths is checked at each: via X directly its chain fits, via Y it does not
     S1.files = {f"ABS(JOIN(DIR(/r/main.map),x{k}.map))": (S1.text(f"X{k}", f"INCLUDE x{k + 1}.map") if k < LIMIT - 1 else S1.text(f"X{k}")) for k in range(0, LIMIT)}
     S1.files["ABS(JOIN(DIR(/r/main.map),y.map))"] = S1.text("Y", "INCLUDE x0.map")
@@ -268,9 +279,6 @@ def run(ctx: Ctx) -> None:
                 ctx.check(terminates(n.body) and isinstance(n.body[-1], ast.Raise), "I3", f"{q}: except {norm(n.type) if n.type else ''}", repo.loc("parser", n), "re-raises", "handler swallows the exception: a missing or undecodable include is silently skipped")
 
     # ---- I4 index-stable substitution ----------------------------------------------------------
-    ctx.rule("I4", "the replacement loop pops and inserts at the same index with nothing else mutating the line list; text is split and joined on the same separator", 2)
-    lines_var, split_sep, join_ok, why, where = split_join_pairing(fn)
-    ctx.check(join_ok, "I4", "split / join separator", loc(where), f"separator {split_sep!r}", why)
     muts = []
     for n in ast.walk(fn):
         if isinstance(n, ast.Call) and isinstance(n.func, ast.Attribute) and isinstance(n.func.value, ast.Name) and n.func.value.id == lines_var and n.func.attr in ("pop", "insert", "append", "remove", "extend", "clear", "sort", "reverse"):
